@@ -874,6 +874,8 @@ def to_src(e, x="x", lib="pd", dask=False):
     r = lambda sub: to_src(sub, x, lib, dask)  # noqa: E731
     if t == "x":
         return x
+    if t == "root2":
+        return "y" if x == "x" else "q"  # dask twin is called y; in pandas the twin is the frame itself
     if t == "lit":
         return _lit_src(e[1])
     if t == "col":
